@@ -15,10 +15,17 @@ use zxref::tape;
 
 pub struct C10;
 
-pub const LENS: [usize; 22] = [0, 1, 2, 3, 17, 18, 19, 20, 126, 127, 128, 129, 130, 131, 254, 255, 256, 257, 258, 259, 1000, 6912];
+pub const LENS: [usize; 26] = [0, 1, 2, 3, 17, 18, 19, 20, 126, 127, 128, 129, 130, 131, 254, 255, 256, 257, 258, 259, 384, 385, 512, 1000, 1024, 6912];
 
 pub fn gen_block(rng: &mut Rng) -> Vec<u8> {
-    let len = if rng.chance(1, 12) { rng.range(0, 20000) as usize } else { *rng.pick(&LENS) };
+    let len = if rng.chance(1, 40) {
+        // the largest blocks a TAP length field can describe
+        *rng.pick(&[32767usize, 32768, 65534, 65535])
+    } else if rng.chance(1, 12) {
+        rng.range(0, 20000) as usize
+    } else {
+        *rng.pick(&LENS)
+    };
     let flag = match rng.below(4) {
         0 => 0x00,
         1 => 0xFF,
@@ -125,7 +132,16 @@ impl Property for C10 {
         let pg_between = rng.chance(1, 3);
         let rewinds = rng.chance(1, 3);
         let nb = rng.range(0, 6) as usize;
-        let blocks: Vec<Vec<u8>> = (0..nb).map(|_| gen_block(rng)).collect();
+        let mut blocks: Vec<Vec<u8>> = vec![];
+        for i in 0..nb {
+            // now and then the same block twice in a row
+            if i > 0 && rng.chance(1, 6) {
+                let b = blocks[i - 1].clone();
+                blocks.push(b);
+            } else {
+                blocks.push(gen_block(rng));
+            }
+        }
         sc.push(Op::blob("tape", &[], tape::make_tap(&blocks)));
         let nreq = rng.range(1, 8) as usize;
         let mut cursor = 0usize;
